@@ -134,58 +134,64 @@ inductive ReadRes where
   | panic (site : String)
   | fuel
 
+/-- the tail of `poll_read`: `n = min(buf.remaining(), payload.len()); buf.put_slice(&payload.as_slice()[..n]);
+payload.take(n)` -/
+def deliver (k : Nat) (r : Rd) : ReadRes :=
+  let n := min k r.payload.len
+  match r.payload.asSlice with
+  | .panic s => .panic s
+  | .err _ => .panic "unreachable"
+  | .ok _ =>
+    match r.payload.take n with
+    | .panic s => .panic s
+    | .err _ => .panic "unreachable"
+    | .ok pb => .data n { r with payload := pb }
+
+/-- decrypting the complete frame of `n` bytes at the head of the frame buffer into the (reset) payload buffer
+(`poll_read_payload`, stream.rs:214-226) -/
+def decryptFrame (dec : Dec) (k : Nat) (n : Nat) (r : Rd) : ReadRes :=
+  let payload := r.payload.reset
+  -- `&frame.as_slice()[LENGTH_FIELD_LEN..LENGTH_FIELD_LEN + n]`
+  match r.frame.asSlice with
+  | .panic s => .panic s
+  | .err _ => .panic "unreachable"
+  | .ok sl =>
+    if sl.length < LENGTH_FIELD_LEN + n then .panic "stream.rs: frame slice [2..2+n] out of range"
+    else
+      let ciphertext := (sl.drop LENGTH_FIELD_LEN).take n
+      match payload.asMutCapacity with
+      | .panic s => .panic s
+      | .err _ => .panic "unreachable"
+      | .ok room =>
+        match dec r.nonce ciphertext with
+        | none => .invalid r
+        | some m =>
+          if m > room then .invalid r   -- snow: output buffer too small is an error, not a panic
+          else
+            match r.frame.take (LENGTH_FIELD_LEN + n) with
+            | .panic s => .panic s
+            | .err _ => .panic "unreachable"
+            | .ok fb =>
+              match fb.shift with
+              | .panic s => .panic s
+              | .err _ => .panic "unreachable"
+              | .ok fb =>
+                -- `payload.extend(m)`
+                match payload.fill (List.replicate m 0) with
+                | .panic s => .panic s
+                | .err _ => .panic "unreachable"
+                | .ok pb => deliver k { r with frame := fb, payload := pb, nonce := r.nonce + 1 }
+
 /-- `AsyncRead::poll_read` with `buf.remaining() = k` (stream.rs:203-255), i.e. `poll_read_payload` followed by
 the copy into the caller's buffer -/
 def pollRead (dec : Dec) (fuel : Nat) (r : Rd) (k : Nat) : ReadRes :=
-  let deliver (r : Rd) : ReadRes :=
-    let n := min k r.payload.len
-    -- `buf.put_slice(&payload.as_slice()[..n]); payload.take(n)`
-    match r.payload.asSlice with
-    | .panic s => .panic s
-    | .err _ => .panic "unreachable"
-    | .ok _ =>
-      match r.payload.take n with
-      | .panic s => .panic s
-      | .err _ => .panic "unreachable"
-      | .ok pb => .data n { r with payload := pb }
-  if r.payload.len > 0 then deliver r
+  if r.payload.len > 0 then deliver k r
   else
     match pollReadFrame fuel r with
     | .fuel => .fuel
     | .panic s => .panic s
-    | .eof r => deliver r
-    | .frame n r =>
-      let payload := r.payload.reset
-      -- `&frame.as_slice()[LENGTH_FIELD_LEN..LENGTH_FIELD_LEN + n]`
-      match r.frame.asSlice with
-      | .panic s => .panic s
-      | .err _ => .panic "unreachable"
-      | .ok sl =>
-        if sl.length < LENGTH_FIELD_LEN + n then .panic "stream.rs: frame slice [2..2+n] out of range"
-        else
-          let ciphertext := (sl.drop LENGTH_FIELD_LEN).take n
-          match payload.asMutCapacity with
-          | .panic s => .panic s
-          | .err _ => .panic "unreachable"
-          | .ok room =>
-            match dec r.nonce ciphertext with
-            | none => .invalid r
-            | some m =>
-              if m > room then .invalid r   -- snow: output buffer too small is an error, not a panic
-              else
-                match r.frame.take (LENGTH_FIELD_LEN + n) with
-                | .panic s => .panic s
-                | .err _ => .panic "unreachable"
-                | .ok fb =>
-                  match fb.shift with
-                  | .panic s => .panic s
-                  | .err _ => .panic "unreachable"
-                  | .ok fb =>
-                    -- `payload.extend(m)`
-                    match payload.fill (List.replicate m 0) with
-                    | .panic s => .panic s
-                    | .err _ => .panic "unreachable"
-                    | .ok pb => deliver { r with frame := fb, payload := pb, nonce := r.nonce + 1 }
+    | .eof r => deliver k r
+    | .frame n r => decryptFrame dec k n r
 
 inductive End where
   | eof | invalid | panic (site : String) | fuel
